@@ -222,3 +222,131 @@ Example c04_world_clean_session_restart_loses_message :
   ltac:(let t := type of clean_session_restart_loses_message in exact t).
 Proof. exact clean_session_restart_loses_message. Qed.
 Print Assumptions c04_world_clean_session_restart_loses_message.
+
+(* ---- projection of the executable session model onto the slim receiver of InboundWorld ---- *)
+(* Additions for coq/props/C04.v — the tie between the executable session model and the slim
+   receiver of the closed world (theories/InboundTie.v).
+   Needs, next to the existing imports of props/C04.v:
+     From Coq Require Import ZArith List.
+     From MQ Require Import OutboundInv InboundTie.
+   (standalone here so that it can be compiled on its own:
+     cd /verif/coq && coqc -Q theories MQ -Q gen MQG -Q props MQP -Q /verif/work/prover-inbound-tie SIT \
+          /verif/work/prover-inbound-tie/C04_additions.v) *)
+From Coq Require Import ZArith List.
+From MQ Require Import Session InboundProofs InboundWorld OutboundInv InboundTie.
+Import ListNotations.
+Local Open Scope N_scope.
+
+(* ---- the projection theorem: one API step of Session.v is a run of the slim receiver ---- *)
+Theorem c04_tie_step_islim : forall c o w c' r w' m m',
+  step c o w = Some ((c', r), w') -> w_store w = Some m -> w_store w' = Some m' ->
+  sorted_keys m -> mdec m -> bytes (k_rbuf c) -> tape_ok (t_rd w) ->
+  islim_steps (islim c m) (islim c' m').
+Proof. exact step_islim. Qed.
+Print Assumptions c04_tie_step_islim.
+
+(* ... and the side conditions are invariants; the Persistence stays in map mode *)
+Theorem c04_tie_step_islim_ok : forall c o w c' r w' m,
+  step c o w = Some ((c', r), w') -> tie_ok c w m ->
+  exists m', tie_ok c' w' m' /\ islim_steps (islim c m) (islim c' m').
+Proof. exact step_islim_ok. Qed.
+Print Assumptions c04_tie_step_islim_ok.
+
+Theorem c04_tie_run_islim : forall c w os c' w', srun c w os c' w' -> forall m, tie_ok c w m ->
+  exists m', tie_ok c' w' m' /\ islim_steps (islim c m) (islim c' m').
+Proof. exact run_islim. Qed.
+Print Assumptions c04_tie_run_islim.
+
+Theorem c04_tie_new_client : forall cf rseq w, w_store w = Some [] -> tape_ok (t_rd w) ->
+  tie_ok (new_client cf rseq) w [] /\ islim (new_client cf rseq) [] = ([], None).
+Proof. intros cf rseq w H1 H2. split; [apply tie_ok_new; assumption|apply islim_new]. Qed.
+Print Assumptions c04_tie_new_client.
+
+(* ---- the pieces (every client state, every genuine-store world, every tape) ---- *)
+(* (i) on_publish: I_deliver / I_dupe(_fail) / I_break *)
+Theorem c04_tie_on_publish : forall c head body w m c' r w',
+  w_store w = Some m -> bytes body -> k_pack c = [] ->
+  on_publish c head body w = Some ((c', r), w') ->
+  w_store w' = Some m /\ t_wr w' = t_wr w /\ pubq c head body m (t_rd w) (c', r) m (t_rd w').
+Proof. exact on_publish_islim. Qed.
+Print Assumptions c04_tie_on_publish.
+
+(* (ii) the flush at the start of ReadSlices: I_flush / I_flush_fail / I_save_fail *)
+Theorem c04_tie_flush_is_read_slices : ltac:(let t := type of read_slices_body_flush in exact t).
+Proof. exact read_slices_body_flush. Qed.
+Theorem c04_tie_flush : forall c w m p w',
+  w_store w = Some m -> sorted_keys m -> flush_ack c w = Some (p, w') ->
+  exists m', w_store w' = Some m' /\ flq c m (t_rd w) p m' (t_rd w').
+Proof. exact flush_ack_islim. Qed.
+Print Assumptions c04_tie_flush.
+
+(* (iii) on_pubrel: I_pubrel / I_pubrel_fail / I_break *)
+Theorem c04_tie_on_pubrel : forall c body w m p w',
+  w_store w = Some m -> sorted_keys m -> bytes body -> k_pack c = [] ->
+  on_pubrel c body w = Some (p, w') ->
+  exists m', w_store w' = Some m' /\ relq c body m (t_rd w) p m' (t_rd w').
+Proof. exact on_pubrel_islim. Qed.
+Print Assumptions c04_tie_on_pubrel.
+
+(* (iv) everything else is a stutter *)
+Theorem c04_tie_dispatch : forall c head body w m p w',
+  w_store w = Some m -> sorted_keys m -> bytes body -> k_pack c = [] ->
+  dispatch c head body w = Some (p, w') ->
+  exists m', w_store w' = Some m' /\ dq c m (t_rd w) p m' (t_rd w').
+Proof. exact dispatch_islim. Qed.
+Print Assumptions c04_tie_dispatch.
+Theorem c04_tie_on_puback : ltac:(let t := type of on_puback_islim in exact t).
+Proof. exact on_puback_islim. Qed.
+Theorem c04_tie_on_pubcomp : ltac:(let t := type of on_pubcomp_islim in exact t).
+Proof. exact on_pubcomp_islim. Qed.
+Theorem c04_tie_on_pubrec : ltac:(let t := type of on_pubrec_islim in exact t).
+Proof. exact on_pubrec_islim. Qed.
+Theorem c04_tie_ctl_stutter : ltac:(let t := type of ctlq_stutter in exact t).
+Proof. exact ctlq_stutter. Qed.
+Theorem c04_tie_pubrec_stutter : ltac:(let t := type of recq_stutter in exact t).
+Proof. exact recq_stutter. Qed.
+Print Assumptions c04_tie_on_puback.
+Print Assumptions c04_tie_on_pubcomp.
+Print Assumptions c04_tie_on_pubrec.
+Print Assumptions c04_tie_ctl_stutter.
+Print Assumptions c04_tie_pubrec_stutter.
+
+Theorem c04_tie_to_offline : forall c w c' w' m,
+  to_offline c w = Some (c', w') -> w_store w = Some m -> w_store w' = Some m /\ islim c' m = islim c m.
+Proof. exact to_offline_islim. Qed.
+Print Assumptions c04_tie_to_offline.
+Theorem c04_tie_connect : forall c w p w' m,
+  connect c w = Some (p, w') -> w_store w = Some m -> w_store w' = Some m /\ islim (fst p) m = islim c m.
+Proof. exact connect_islim. Qed.
+Print Assumptions c04_tie_connect.
+Theorem c04_tie_other_ops : ltac:(let t := type of other_ops_islim in exact t).
+Proof. exact other_ops_islim. Qed.
+Print Assumptions c04_tie_other_ops.
+(* AdoptSession: I_restart *)
+Theorem c04_tie_adopt : ltac:(let t := type of op_adopt_islim in exact t).
+Proof. exact op_adopt_islim. Qed.
+Print Assumptions c04_tie_adopt.
+
+(* ---- cstep_in is the client part of InboundWorld.istep ---- *)
+Theorem c04_tie_istep_is_cstep : forall w l w', istep w l w' ->
+  proj w' = proj w \/ exists k, ilab_of k = l /\ cstep_in k (proj w) (proj w').
+Proof. exact istep_client_proj. Qed.
+Print Assumptions c04_tie_istep_is_cstep.
+Theorem c04_tie_cstep_is_istep : forall k s s' w,
+  cstep_in k s s' -> sl_eq (proj w) s -> input_ok k w ->
+  exists w', istep w (ilab_of k) w' /\ sl_eq (proj w') s'.
+Proof. exact cstep_in_istep. Qed.
+Print Assumptions c04_tie_cstep_is_istep.
+Theorem c04_tie_marker_list_irrelevant : forall w1 w2 l w1', weq w1 w2 -> istep w1 l w1' ->
+  exists w2', istep w2 l w2' /\ weq w1' w2'.
+Proof. exact istep_weq. Qed.
+Print Assumptions c04_tie_marker_list_irrelevant.
+
+(* ---- non-vacuity: concrete runs of Session.step and their projections ---- *)
+Example c04_tie_example : ltac:(let t := type of tie_example in exact t).
+Proof. exact tie_example. Qed.
+Example c04_tie_example_ok : tie_ok ex_client tie_world [].
+Proof. exact tie_example_ok. Qed.
+Example c04_tie_example_fail : ltac:(let t := type of tie_example_fail in exact t).
+Proof. exact tie_example_fail. Qed.
+Print Assumptions c04_tie_example.
